@@ -15,6 +15,7 @@ import hashlib, json, os, sys
 HERE = os.path.dirname(os.path.abspath(__file__))
 sys.path.insert(0, HERE)
 import checklib  # noqa: E402
+checklib.worker_linecov()
 
 
 def sha(t):
